@@ -40,6 +40,12 @@ CONFIGS = [
     cfg("extreme", N=2, head=1, manual=0, L=255, cap=255, pay=1, ctx=1, feats=(P, S, H, G), scale=0.08),
 ]
 
+# states that define no callback at all, observable only through the verbose log (C16)
+BARE_CONFIGS = [
+    cfg("bare1of3", N=3, head=1, manual=0, L=3, pay=0, ctx=1, bare=1, feats=(P, V, H)),
+    cfg("bare2of4", N=4, head=0, manual=1, L=2, pay=3, ctx=1, bare=2, feats=(P, V)),
+]
+
 # bounded-exhaustive enumeration of guard decisions (C03, C04): K=0, N=3
 ENUM_CONFIGS = [
     cfg("enumL1", N=3, head=1, manual=0, L=1, pay=0, ctx=1, feats=(P, G, H)),
@@ -220,7 +226,10 @@ def run_random(prop, tier, seed, verdict, tree, quick_cases=20000, thorough_case
         jobs = []
         for c, b in built:
             for sh in range(shards):
-                jobs.append((c, b.path, ["--cases", str(max(50, int(ncases * c.get("scale", 1.0)))), "--ops", str(ops), "--shard", str(sh), "--shards", str(shards)] + list(extra_args)))
+                # the instances are placement-constructed over a different memory fill pattern in every job
+                fill = (len(jobs) + seed) % 6
+                jobs.append((c, b.path, ["--cases", str(max(50, int(ncases * c.get("scale", 1.0)))), "--ops", str(ops), "--shard", str(sh), "--shards", str(shards),
+                                         "--fill", str(fill)] + list(extra_args)))
         r.run_jobs(jobs, timeout=600 if tier == "quick" else 7200)
     return r
 
@@ -263,6 +272,12 @@ def prop_generic(prop, tier, seed, verdict, tree):
 
 def prop_c16(prop, tier, seed, verdict, tree):
     r = run_random(prop, tier, seed, verdict, tree)
+    # bare states: logger attached throughout, so that every delivery to them is seen as a verbose record
+    for variant in tree.header_variants():
+        built = r.build_many(BARE_CONFIGS, variant)
+        jobs = [(c, b.path, ["--cases", str(cases_for(tier, 8000, 250000)), "--ops", "24", "--logmode", "0", "--shard", str(sh), "--shards", "2"])
+                for c, b in built for sh in range(2)]
+        r.run_jobs(jobs, timeout=900 if tier == "quick" else 7200)
     ncases = cases_for(tier, 6000, 200000)
     runs_compared = 0
     for variant in tree.header_variants():
@@ -454,6 +469,35 @@ def prop_c18(prop, tier, seed, verdict, tree):
                 for sh in range(shards):
                     jobs.append((c, b.path, ["--cases", str(max(50, int(ncases * c.get("scale", 1.0)))), "--ops", "24", "--shard", str(sh), "--shards", str(shards), "--fill", str(1 + sh % 5)]))
             r.run_jobs(jobs, timeout=1800 if tier == "quick" else 14400, env=env, on_abnormal=abnormal)
+        # the container / bit-stream / task-list monitors and a sample of machine sizes under the same sanitizers
+        other = []
+        chunks = [(1, 16)] if tier == "quick" else [(lo, min(lo + 15, 255)) for lo in range(1, 256, 16)]
+        for propnum in (20, 13, 10):
+            for ch in (chunks if propnum != 10 else [(1, 255)]):
+                other.append(("contmon.cpp", ["-DCONT_PROP=%d" % propnum, "-DCONT_LO=%d" % ch[0], "-DCONT_HI=%d" % ch[1], "-pthread"],
+                              "contmon%d_%d" % (propnum, ch[0]), ["--cases", "6" if tier == "quick" else "40", "--shards", "16", "--shard", "0"]))
+        for n, h in ([(1, 1), (2, 0), (3, 1), (9, 0), (33, 1)] if tier == "quick" else [(1, 1), (2, 0), (3, 1), (9, 0), (33, 1), (64, 0), (129, 1), (255, 0)]):
+            other.append(("widemon.cpp", ["-DWIDE_N=%d" % n, "-DWIDE_HEAD=%d" % h], "widemon-%d-%d" % (n, h), ["--prop", "ALL"]))
+
+        def build_run_other(item):
+            src, defs, name, args = item
+            b = C.build(tree, src, SAN_FLAGS + defs, variant=variant, name=name + "-san")
+            if not b.ok:
+                return item, b, None
+            return item, b, C.run_monitor([b.path, "--tier", tier, "--seed", str(seed)] + args, timeout=3600, env=env)
+
+        for item, b, res in C.parallel(build_run_other, other):
+            if not b.ok:
+                verdict.harness_error("sanitizer build of %s failed: %s" % (item[2], b.log[-300:]))
+                continue
+            if res.timed_out:
+                verdict.harness_error("%s under sanitizers timed out (inconclusive)" % item[2])
+                continue
+            r.stats["other_engine_sanitizer_runs"] = r.stats.get("other_engine_sanitizer_runs", 0) + 1
+            if res.rc != 0:
+                reports += 1
+                k = san_key(res.stderr_tail)
+                verdict.violation(k or "process-died|%s|rc=%s" % (item[2], res.rc), "sanitizer report in %s: %s" % (item[2], res.stderr_tail[-1500:]))
         # allocation counters: operator new / malloc family wrapped; nothing may be called inside FFSM2 scope
         abuilt = r.build_many(cfgs, variant, flags=BASE_FLAGS + ["-DVERIF_COUNT_ALLOCS"], tag="-alloc",
                               link=["-Wl,--wrap=malloc,--wrap=calloc,--wrap=realloc,--wrap=free"])
